@@ -47,7 +47,9 @@ def run(ctx):
             key = json.dumps(h, sort_keys=True)
             if key in seen: continue
             seen.add(key)
-            for enc in ("int", "str"):
+            # a third rendering for histories that use 'match': ints whose decimal digits contain one another (1, 11, 12), so that
+            # "the number 1" and "the text 1 somewhere in the cell" are different predicates
+            for enc in ("int", "str") + (("int11",) if '"match"' in key else ()):
                 ctx.case(key if enc == "int" else None, nontrivial=(enc == "int"))
                 bad = replay(h, enc, Table, Missing)
                 if bad:
@@ -65,6 +67,7 @@ def replay(h, enc, Table, Missing):
     def val(v):
         if v == M: return Missing
         if v == N: return None
+        if enc == "int11": return {0: 1, 1: 11, 2: 12}.get(v, v if v < 0 else 100 + v)      # order-preserving, digits overlapping
         return v if enc == "int" else "v%02d" % (v + 10)      # order-preserving: -5 -> v05, 0 -> v10, 3 -> v13
     def rows_of(t): return [tuple(r) for r in t]
     def exp_rows(step): return [tuple(val(x) for x in r) for r in step["rows"]]
